@@ -51,7 +51,7 @@ def known_overlap(ctx, results):
     for r in results:
         if r.get("failed"):
             continue
-        vs = r["stats"].get("violations", [])
+        vs = r["stats"].get("violations") or []
         keep = []
         for v in vs:
             if isinstance(v, str) and v.startswith(KNOWN_PREFIX):
